@@ -287,6 +287,76 @@ func c09CheckBuild(res *engine.Result, sec *ref.S35Section, events bool) {
 	res.Outcomes = append(res.Outcomes, engine.Hash64(ref.S35SectionBytes(sec)))
 }
 
+// ---- scenario "shared-descriptors" ------------------------------------------------------------------------------
+
+type c09ShareCase struct {
+	Init    int  `json:"init_section"`
+	Decoded bool `json:"first_owner_decoded"`
+}
+
+// One descriptor object reaches a second signal (SetDescriptors of the list another signal holds): setters called
+// on the ORIGINAL object afterwards are reflected by the second signal's getters and by its next encoding.
+func c09CheckShare(c c09ShareCase) engine.Result {
+	var res engine.Result
+	sec := c09InitSections[c.Init]
+	sec.Pointer = 0
+	if len(sec.Descs) == 0 || !sec.Descs[0].IsSeg {
+		return res
+	}
+	for i := range sec.Descs {
+		if !sec.Descs[i].IsSeg {
+			return res // only lists of segmentation descriptors: the API cannot carry foreign ones over
+		}
+	}
+	engine.Guard(&res, "shared-descriptors", func() {
+		var a scte35.SCTE35
+		if c.Decoded {
+			var err error
+			if a, err = scte35.NewSCTE35(ref.S35Bytes(&sec)); err != nil {
+				res.Failf("shared-descriptors|decode", "%v", err)
+				return
+			}
+		} else {
+			a = c09Build(&sec, false)
+		}
+		orig := a.Descriptors()
+		b := c09Build(&sec, true)
+		// what b encodes on its own is the baseline (fields the API cannot set keep their defaults there)
+		want, perr := ref.S35Parse(append([]byte{0}, b.UpdateData()...))
+		if perr != nil {
+			res.Failf("shared-descriptors|baseline", "the second signal's own encoding does not parse: %v", perr)
+			return
+		}
+		b.SetDescriptors(orig) // the same objects, now listed by b
+		// setters on the original objects, after the hand-over
+		want.Descs = append([]ref.S35Desc(nil), sec.Descs...)
+		for i, d := range orig {
+			g := want.Descs[i].Seg
+			g.EventID = 0xCAFE0000 + uint32(i)
+			d.SetEventID(g.EventID)
+			g.SegNum, g.SegsExpected = 7, 9
+			d.SetSegmentNumber(7)
+			d.SetSegmentsExpected(9)
+			want.Descs[i] = c09SegD(g)
+		}
+		res.Nontrivial++
+		res.Evals++
+		cmp := &c08Cmp{res: &res, op: "shared-descriptors", what: c08Describe(&sec)}
+		for i, d := range b.Descriptors() {
+			if d.EventID() != want.Descs[i].Seg.EventID || d.SegmentNumber() != 7 {
+				cmp.failf("descriptor loop", "setter on the original object not reflected by the second signal's getter", "descriptor %d: event id %#x segment number %d", i, d.EventID(), d.SegmentNumber())
+			}
+			if d.SCTE35() != b {
+				cmp.failf("descriptor loop", "descriptor does not refer to the signal that lists it", "descriptor %d", i)
+			}
+		}
+		out := b.UpdateData()
+		c09Judge(cmp, c08CmdClass(&sec), out, &want, false)
+	})
+	res.Outcome(c.Init, c.Decoded)
+	return res
+}
+
 // ---- scenario "descriptor-component-counts" ---------------------------------------------------------------------
 
 type c09CompCase struct {
@@ -1189,6 +1259,17 @@ func init() {
 					return res
 				},
 				Batch: 1,
+			},
+			&engine.Enum[c09ShareCase]{
+				Name: "shared-descriptors",
+				Rule: "for each of the initial sections with segmentation descriptors (built through the API, or decoded): a second signal takes over the first signal's descriptor objects with SetDescriptors; setters called on the ORIGINAL objects afterwards (event id, segment numbers) must show in the second signal's getters, its descriptors must refer to it, and its next encoding must be the canonical section of the new values",
+				Gen: func(r *engine.Run, emit func(c09ShareCase)) {
+					for i := range c09InitSections {
+						emit(c09ShareCase{i, false})
+						emit(c09ShareCase{i, true})
+					}
+				},
+				Check: c09CheckShare, Batch: 4,
 			},
 			&engine.Enum[c09CompCase]{
 				Name: "descriptor-component-counts",
